@@ -96,3 +96,19 @@ func WitnessF17() bool {
 	a, b, ok := twinOutcomes(s, Req{Method: "GET", Path: "/w/abcdef/b/c"})
 	return ok && a.Kind == "sel" && b.Kind == "sel" && a.Route != b.Route
 }
+
+// WitnessF21: RouterJSR311, roots /{x} and /a: GET /a/b is served by the variable root in both orders.
+func WitnessF21() bool {
+	a := Service{ID: 0, Root: "/{x}", Routes: []RouteDecl{simpleRoute(0, "GET", "/{y}")}}
+	b := Service{ID: 1, Root: "/a", Routes: []RouteDecl{simpleRoute(1, "GET", "/{z}")}}
+	for _, svcs := range [][]Service{{a, b}, {b, a}} {
+		c, err := Build(Config{Router: "jsr", Services: svcs})
+		if err != nil {
+			return false
+		}
+		if o := Dispatch(c, Req{Method: "GET", Path: "/a/b"}); o.Kind != "sel" || o.Svc != 0 {
+			return false
+		}
+	}
+	return true
+}
